@@ -46,6 +46,8 @@ type History struct {
 	// Reenter: operations performed from INSIDE a Stream callback (the At-th callback of the whole
 	// history, counting both kinds). Only used with the C01 oracle, with fresh sequence numbers.
 	Reenter []ReOp `json:"reenter,omitempty"`
+	// Far: the sequence numbers form two clusters more than a sort window apart in both directions.
+	Far bool `json:"far,omitempty"`
 }
 
 // ReOp is one re-entrant call.
